@@ -799,7 +799,8 @@ func classify(err error) string {
 	case strings.Contains(m, "no decoration at all"):
 		return "err:no-decoration"
 	}
-	return "err:other(" + m + ")"
+	lastErrText = m
+	return "err:other"
 }
 
 func (x *Exec) showCellLoc(c *tabular.Cell) string {
@@ -1415,6 +1416,7 @@ func (x *Exec) do1(line string) (res string, leanLine string) {
 
 var lastChunks = map[int][]int{}
 var lastPanic string
+var lastErrText string
 
 // registeredNames: every decoration name this process registered (name -> encoded decoration),
 // kept by the harness so the oracles do not have to trust the registry's own listing.
